@@ -21,6 +21,64 @@ import (
 	"verifharness/core"
 )
 
+// The reverse confusion is in the same stream: a SEQUENCE replaced by the mapping index → element (`ports: {"0": "80:80"}`):
+// patterns written for list items (`services.*.ports.*`, `…devices.*`) match the keys of such a mapping as well.
+
+// listNodes lists the paths of all non-empty sequences.
+func c01ListNodes(v any, cur []any, out *[][]any) {
+	switch x := v.(type) {
+	case M:
+		for _, k := range sortedKeys(x) {
+			c01ListNodes(x[k], append(cur, k), out)
+		}
+	case L:
+		if len(x) > 0 {
+			*out = append(*out, append([]any{}, cur...))
+		}
+		for i, e := range x {
+			c01ListNodes(e, append(cur, i), out)
+		}
+	}
+}
+
+// mapifyAt returns a copy of doc in which the sequence at the given path is replaced by {"0": e0, "1": e1, …}.
+func c01MapifyAt(doc any, path []any) any {
+	if len(path) == 0 {
+		l, ok := doc.(L)
+		if !ok {
+			return doc
+		}
+		m := M{}
+		for i, e := range l {
+			m[fmt.Sprint(i)] = c01DeepCopy(e)
+		}
+		return m
+	}
+	switch x := doc.(type) {
+	case M:
+		o := M{}
+		for k, e := range x {
+			if k == path[0] {
+				o[k] = c01MapifyAt(e, path[1:])
+			} else {
+				o[k] = c01DeepCopy(e)
+			}
+		}
+		return o
+	case L:
+		o := make(L, len(x))
+		for i, e := range x {
+			if i == path[0] {
+				o[i] = c01MapifyAt(e, path[1:])
+			} else {
+				o[i] = c01DeepCopy(e)
+			}
+		}
+		return o
+	}
+	return doc
+}
+
 // mapNodes lists the paths (key sequences) of all mappings strictly below the root, through mappings and sequences.
 func c01MapNodes(v any, cur []any, out *[][]any) {
 	switch x := v.(type) {
@@ -123,6 +181,34 @@ func c01Seqified(ctx *core.Ctx, sch *c01Schema, rich M) {
 			emit(rich, richNodes, []int{i}, positions[ctx.Rng.Intn(len(positions))], bits, "rich")
 		}
 	}
+	// 1b. … and every non-empty sequence of it turned into a mapping
+	emitMapified := func(doc M, src string) {
+		var lists [][]any
+		c01ListNodes(doc, nil, &lists)
+		if len(lists) == 0 {
+			return
+		}
+		at := lists[ctx.Rng.Intn(len(lists))]
+		dm, ok := c01MapifyAt(doc, at).(M)
+		if !ok {
+			return
+		}
+		pos := positions[ctx.Rng.Intn(len(positions))]
+		req := c01Positioned(pos, dm, rich)
+		if req == nil {
+			return
+		}
+		applyOptionBits(req, drawBits())
+		ctx.Count("mapified-src-" + src)
+		ctx.Add("c01load", c01Args{Req: *req, Shape: fmt.Sprintf("mapified/%s/%s/%v", pos, src, at)})
+	}
+	var richLists [][]any
+	c01ListNodes(rich, nil, &richLists)
+	for range richLists {
+		for k := 0; k < ctx.Pick(3, 8); k++ {
+			emitMapified(rich, "rich")
+		}
+	}
 	// 2. the documents of the (path × kind) stream: one value of one kind at one schema path, one or two of the
 	//    mappings on the way (or beside it) turned into lists
 	paths := sch.paths(9)
@@ -167,5 +253,6 @@ func c01Seqified(ctx *core.Ctx, sch *c01Schema, rich M) {
 		var nodes [][]any
 		c01MapNodes(doc, nil, &nodes)
 		emit(doc, nodes, []int{ctx.Rng.Intn(len(nodes))}, positions[ctx.Rng.Intn(len(positions))], drawBits(), "valid")
+		emitMapified(doc, "valid")
 	}
 }
